@@ -479,6 +479,33 @@ func (a *Analysis) IdxGuard() *report.RuleResult {
 		}
 	}
 	var sites []idxSite
+	// the struct types that hold scanner state: the receiver type of Lex and what it embeds
+	stateTypes := map[*types.Named]bool{}
+	if m.Lex != nil && m.Lex.Recv != nil && len(m.Lex.Recv.List) == 1 {
+		var add func(t types.Type, depth int)
+		add = func(t types.Type, depth int) {
+			if p, ok := t.Underlying().(*types.Pointer); ok {
+				t = p.Elem()
+			}
+			n, ok := t.(*types.Named)
+			if !ok || stateTypes[n] || depth > 3 {
+				return
+			}
+			st, ok := n.Underlying().(*types.Struct)
+			if !ok {
+				return
+			}
+			stateTypes[n] = true
+			for i := 0; i < st.NumFields(); i++ {
+				if st.Field(i).Embedded() {
+					add(st.Field(i).Type(), depth+1)
+				}
+			}
+		}
+		if t := info.TypeOf(m.Lex.Recv.List[0].Type); t != nil {
+			add(t, 0)
+		}
+	}
 	finfo := map[*types.Func]*idxFn{}
 	callsTo := map[*types.Func][]idxCall{}
 	calleeOf := func(c *ast.CallExpr) *types.Func {
@@ -515,6 +542,17 @@ func (a *Analysis) IdxGuard() *report.RuleResult {
 					fi.assigned[y.Name] = true
 				}
 			case *ast.SelectorExpr:
+				// a field of another type that happens to have the same name (NewLines.data) is not the scanner's
+				if t := info.TypeOf(y.X); t != nil && len(stateTypes) > 0 {
+					if p, ok := t.Underlying().(*types.Pointer); ok {
+						t = p.Elem()
+					}
+					if n, ok := t.(*types.Named); ok {
+						if _, isStruct := n.Underlying().(*types.Struct); isStruct && !stateTypes[n] {
+							return
+						}
+					}
+				}
 				fi.writes[y.Sel.Name] = true
 			}
 		}
@@ -1359,7 +1397,37 @@ func (a *Analysis) IdxGuard() *report.RuleResult {
 				delete(g2.T, "p")
 				g2.T["lex.p"] += c
 			}
-			if !entails(g2, s.facts) && !(s.local == nil && s.fnObj != nil && viaCallers(s.fnObj, g2, 0)) {
+			proved := entails(g2, s.facts) || (s.local == nil && s.fnObj != nil && viaCallers(s.fnObj, g2, 0))
+			if !proved {
+				// e != 0 is known here (the other side of `x == len(…) ||`): then e >= 0, which the callers may
+				// establish, gives e >= 1, i.e. the goal e - 1 >= 0
+				weaker := g2.clone()
+				weaker.K++
+				neg := lexpr{T: map[string]int{}, K: -weaker.K}
+				for t, c := range weaker.T {
+					neg.T[t] = -c
+				}
+				same := func(a, b lexpr) bool {
+					if a.K != b.K || len(a.T) != len(b.T) {
+						return false
+					}
+					for t, c := range a.T {
+						if b.T[t] != c {
+							return false
+						}
+					}
+					return true
+				}
+				for _, f := range s.facts {
+					if f.Ne && (same(f.E, weaker) || same(f.E, neg)) {
+						if entails(weaker, s.facts) || (s.local == nil && s.fnObj != nil && viaCallers(s.fnObj, weaker, 0)) {
+							proved = true
+						}
+						break
+					}
+				}
+			}
+			if !proved {
 				okAll = false
 				failed = append(failed, descr[gi]+" ("+g2.String()+" >= 0)")
 			}
